@@ -5,7 +5,8 @@ from . import nodeshape, slottypes
 
 TEXT = ("annotation-driven typing of AST-node expressions in %s (parameter annotations, `# type:` comments, constructor slot "
         "annotations, loops, zip/sorted/comprehensions, lambdas, isinstance/type() narrowing): every attribute read on an "
-        "expression typed as a set of node classes exists on every class of the set, a node-typed function returns only node kinds of "
+        "expression typed as a set of node classes exists on every class of the set (a `getattr(node, \"slot\", default)` included: "
+        "the default must not stand in for a kind without that slot), a node-typed function returns only node kinds of "
         "its declared return type, and a str is never handed to a parameter annotated as a sequence of elements — %s")
 
 
@@ -37,6 +38,11 @@ def run_rule(prog, run, rid, scope_text, consequence, prefixes, floor, seed=None
             key = "%s:%s:no-attribute(%s on %s)" % (fi.module.name, fi.qualname, ast.unparse(node), "|".join(missing))
             msg = "`%s` is typed as a node that may be %s, which has no attribute `%s`: AttributeError at run time" % (
                 ast.unparse(node.value), " / ".join(missing), what)
+        elif kind == "getattr-default":
+            key = "%s:%s:getattr-default(%s on %s)" % (fi.module.name, fi.qualname, what, "|".join(missing))
+            msg = ("`%s` reads the slot `%s` with a default from a node that may be %s, which has no such slot: for those kinds the "
+                   "default stands in for the node's content, so two different nodes of that kind are treated as the same"
+                   % (" ".join(ast.unparse(node).split())[:70], what, " / ".join(missing)))
         elif kind == "ret":
             key = "%s:%s:returns(%s)" % (fi.module.name, fi.qualname, "|".join(missing))
             msg = "`%s` may be a %s node but %s is declared to return %s: callers read attributes that node kind does not have" % (
